@@ -176,7 +176,7 @@ theorem FL_C06_rn_instance_BT (r : Rounding) {ρ : Type} (L : Leaves (RN r))
         (resolveLimit ⟨beta, kappa, tau, lim, .dflt⟩ o)))
       teams (rateCore .BTF L ⟨beta, kappa, tau, lim, .dflt⟩ le teams ranks o) :=
   FL_C06_rateCore (MonoArith.rn r) .BTF L _ le teams ranks o (by rintro (h | h) <;> cases h) hv hk
-    ((MonoArith.rn r).fl1_gammaNonneg_of_tag _ (by intro x h; cases h) (by intro h; cases h))
+    ((MonoArith.rn r).fl1_gammaNonneg_of_tag _ (by intro x h; cases h) (by intro h; cases h) (by intro f h; cases h))
     trivial hr
 
 /-- C05 in every rounded arithmetic: a sole winner's members never lose mu (Bradley–Terry, partial pairing) -/
@@ -207,7 +207,7 @@ example (L : Leaves (RN (truncRounding 10))) (P : Params (RN (truncRounding 10))
 /-- why `GammaNonneg` restricts `c` to `c > 0`: the unrestricted "`0 ≤ gamma` for all `c`" is false for the
 library's default callback `√σ² / c` (take `c = -1`, `σ² = 1`) -/
 example : ¬ ∀ (c : ℝ) (k : Nat) (mu s2 : ℝ) (rank : Nat),
-    (Scalar.ofNat 0 : ℝ) ≤ gammaVal GammaFn.dflt c k mu s2 rank := by
+    (Scalar.ofNat 0 : ℝ) ≤ gammaVal GammaFn.dflt c k mu s2 [] rank := by
   intro h
   have := h (-1) 0 0 1 0
   simp only [gammaVal, sc_sqrt, Real.sqrt_one, sc_ofNat, Nat.cast_zero] at this
@@ -225,7 +225,7 @@ example (L : Leaves ℝ) (o : CallOpts ℝ) :
   · intro T hT; simp at hT; rcases hT with rfl | rfl <;> simp
   · intro T hT p hp; simp at hT; rcases hT with rfl | rfl <;> simp at hp <;> subst hp <;> norm_num
   · norm_num
-  · exact MonoArith.real.fl1_gammaNonneg_of_tag _ (by intro x h; cases h) (by intro h; cases h)
+  · exact MonoArith.real.fl1_gammaNonneg_of_tag _ (by intro x h; cases h) (by intro h; cases h) (by intro f h; cases h)
   · intro r h; cases h; rfl
 
 end OS
